@@ -460,6 +460,63 @@ example :
     = (some true, some false, some false) := by
   decide +kernel
 
+/-- `ruleset_of_request` with its invariant hypothesis discharged: after **any** history of requests
+    in the process (from the empty cache), the next `get_ruleset` call returns a ruleset that reads as
+    the spec says for this request -/
+theorem ruleset_after_any_history (parsed : String → Except Err (List Rule)) (hist : List Rulesets.Req)
+    (out : List Rulesets.RS) (st st' : Rulesets.State) (q : Rulesets.Req) (rs : Rulesets.RS)
+    (hh : Rulesets.run parsed hist {} = .ok (out, st)) (h : Rulesets.getRuleset parsed q st = .ok (rs, st')) :
+    ∃ rules m, parsed q.strictness = .ok rules ∧ Rulesets.reqMul q = .ok m ∧
+      rs.read st'.heap = Rulesets.wanted rules (sortDedupStr q.names) (sortDedupStr q.cats) m := by
+  obtain ⟨inv, _⟩ := Rulesets.run_inv parsed hist {} st out hh (fun p hp => by cases hp)
+  obtain ⟨_, k, rules, _, _, h2, h3, h4, h5, h6⟩ := ruleset_of_request parsed q st st' rs h inv
+  exact ⟨rules, k.mul, h5, h4, by rw [h6, h2, h3]⟩
+
+/-- `options_checked_then_ruleset` with its invariant hypothesis discharged likewise -/
+theorem options_checked_after_any_history (parsed : String → Except Err (List Rule)) (allCats : List String)
+    (hist : List Rulesets.Req) (out : List Rulesets.RS) (st st' : Rulesets.State) (q : Rulesets.Req)
+    (hh : Rulesets.run parsed hist {} = .ok (out, st))
+    (h : Rulesets.checkOptions parsed allCats q st = .ok (true, st')) :
+    ∃ rs rules m, Rulesets.getRuleset parsed q st' = .ok (rs, st') ∧ parsed q.strictness = .ok rules ∧
+      Rulesets.reqMul q = .ok m ∧ 0 < q.cmul.1 ∧ 0 < q.nmul.1 ∧
+      (∀ n ∈ q.names, ∃ r ∈ rules, r.name = n) ∧ (∀ c ∈ q.cats, c ∈ allCats) ∧
+      rs.read st'.heap = Rulesets.wanted rules (sortDedupStr q.names) (sortDedupStr q.cats) m := by
+  obtain ⟨inv, _⟩ := Rulesets.run_inv parsed hist {} st out hh (fun p hp => by cases hp)
+  obtain ⟨rs, rules, m, h1, _, h3, h4, h5, h6, h7, h8, h9⟩ :=
+    options_checked_then_ruleset parsed allCats q st st' inv h
+  exact ⟨rs, rules, m, h1, h3, h4, h5, h6, h7, h8, h9⟩
+
+/-! ### strictness levels: `_get_rule_files_for_strictness` is cumulative, parsing only appends -/
+
+/-- parsing more text never touches the rules already there: whatever `create_rules` returns starts
+    with the rules it was given (earlier files), unchanged and in place -/
+theorem earlier_rules_kept (cfg : Cfg) (files : List String) (rules out : List Rule) (aliases : Aliases)
+    (h : createRules cfg files rules aliases = .ok out) : rules <+: out :=
+  createRules_rules_prefix cfg files rules out aliases h
+
+/-- the same for one `Parser(text, …, existing_rules, existing_aliases)`: its `.rules` start with the
+    rules it was given -/
+theorem continuation_extends_given (cfg : Cfg) (given rules : List Rule) (aliases al : Aliases) (text : String)
+    (h : parseText cfg given aliases text = .ok (rules, al)) : given <+: rules :=
+  parseText_rules_prefix h
+
+/-- for any table of levels with their files (`_STRICTNESS_LEVELS`), any two levels `a`, `b`: the file
+    lists `_get_rule_files_for_strictness` returns are one the front of the other, and if the longer
+    one parses, so does the shorter, to a front part of the same rules — every rule of the stricter
+    level is a rule of the looser one, unchanged and at the same position; looser levels only add -/
+theorem stricter_level_rules_kept (cfg : Cfg) (levels : List (String × String)) (a b : String)
+    (fa fb : List String) (ha : Rulesets.ruleFilesFor levels a = some fa)
+    (hb : Rulesets.ruleFilesFor levels b = some fb) :
+    (fa <+: fb ∨ fb <+: fa) ∧
+    ∀ rb, fa <+: fb → createRules cfg fb [] [] = .ok rb → ∃ ra, createRules cfg fa [] [] = .ok ra ∧ ra <+: rb := by
+  refine ⟨Rulesets.ruleFilesFor_chain levels a b fa fb ha hb, ?_⟩
+  rintro rb ⟨t, rfl⟩ h
+  exact createRules_append_prefix cfg fa t [] rb [] h
+
+example : Rulesets.ruleFilesFor [("strict", "s"), ("relaxed", "r"), ("loose", "l")] "relaxed" = some ["s", "r"] ∧
+    Rulesets.ruleFilesFor [("strict", "s"), ("relaxed", "r"), ("loose", "l")] "loose" = some ["s", "r", "l"] ∧
+    Rulesets.ruleFilesFor [("strict", "s"), ("relaxed", "r"), ("loose", "l")] "lax" = none := by decide
+
 /-! ### the regenerated text parses back (thm 7) -/
 
 /-- thm 7 (`reparse_printed`) for every list `L` of `or`-operands the parser can return (a CONDITIONS
